@@ -278,7 +278,10 @@ def run(ctx):
         ctx.count("op:hs")
         rep = {"kind": "failing-input", "op": line, "impl": out[:2000], "variant": "asan"}
         if out.startswith("FAULT") or out.startswith("ERR"):
-            ctx.violation(cell + (":memory-fault" if out.startswith("FAULT") else ":harness"), "session did not run to its end: %s [%s]" % (out[:100], line[:80]), rep)
+            # FAULT asan:/ubsan: = a sanitizer report; FAULT crash / timeout = the process ended without one (signal, or the
+            # per-operation watchdog because a peer stayed blocked): the session did not complete either way
+            kind = ":harness" if out.startswith("ERR") else (":memory-fault" if out.startswith(("FAULT asan", "FAULT ubsan")) else ":stalled-or-crashed")
+            ctx.violation(cell + kind, "session did not run to its end: %s [%s]" % (out[:100], line[:80]), rep)
             continue
         f = fields(out)
         bad = []
